@@ -32,6 +32,12 @@ var replacements = map[string]string{
 	akType + "SetModuleAccount":               "AKSetModuleAccount",
 	akType + "AddressCodec":                   "AKAddressCodec",
 
+	// the concrete protobuf codec (client.Context.Codec is a codec.Codec, which only *ProtoCodec / *AminoCodec implement)
+	"(*github.com/cosmos/cosmos-sdk/codec.ProtoCodec).Marshal":       "PCMarshal",
+	"(*github.com/cosmos/cosmos-sdk/codec.ProtoCodec).MustMarshal":   "PCMustMarshal",
+	"(*github.com/cosmos/cosmos-sdk/codec.ProtoCodec).Unmarshal":     "PCUnmarshal",
+	"(*github.com/cosmos/cosmos-sdk/codec.ProtoCodec).MustUnmarshal": "PCMustUnmarshal",
+
 	// protobuf Any packing / type registry
 	"(github.com/cosmos/cosmos-sdk/x/authz.MsgExec).GetMessages":    "ExecGetMessages",
 	"(github.com/cosmos/cosmos-sdk/x/authz.Grant).GetAuthorization": "GrantGetAuthorization",
